@@ -1,6 +1,6 @@
 """C01 — capture is the pairwise, linear trapezoid integral (correspondence + predicate B)."""
 import numpy as np
-from common import F, rs, vs, ms, dyadic, close, call
+from common import F, rs, vs, ms, dyadic, close, call, as_given
 
 
 def dom_text(dom, trapz):
@@ -10,7 +10,14 @@ def dom_text(dom, trapz):
 
 
 def gen_domain(rng, nd):
-    kind = rng.choice(["uniform", "nonuniform", "step", "step_rect"])
+    kind = rng.choice(["uniform", "nonuniform", "step", "step_rect", "intgrid"])
+    if kind == "intgrid":
+        # whole-number wavelengths handed in with an integer dtype (np.arange(300, 700), [0, 3, 4]): odd and even steps
+        steps = rng.integers(1, 8, size=nd - 1)
+        if rng.integers(2):
+            steps[:] = int(rng.integers(1, 6))
+        start = int(rng.integers(-4, 400))
+        return kind, np.concatenate([[start], start + np.cumsum(steps)]).astype(np.int64), bool(rng.integers(4) > 0)
     # physical unit of the domain axis: nm, or metres / km-like scales (exact powers of two)
     unit = 2.0 ** int(rng.choice([0, 0, 0, -10, -23, -30, -40, 8]))
     if kind == "uniform":
@@ -87,10 +94,18 @@ def run(R):
                   "1bxb": (1, nf, nd), "2xb": (nf, nd)}[str(shape)]
         sshape = {"2x2": (ns, nd), "1x1": (nd,), "1x2": (ns, nd), "2x1": (nd,), "bxb": (nb, ns, nd),
                   "1bxb": (nb, ns, nd), "2xb": (nb, ns, nd)}[str(shape)]
-        filt = dyadic(rng, -2, 2, 5, size=fshape)
-        sig = dyadic(rng, -4, 4, 5, size=sshape)
-        d_ = dom if not np.isscalar(dom) else float(dom)
-        st, out = call(dreye.calculate_capture, filt, sig, domain=d_, trapz=trapz)
+        whole = bool(rng.integers(4) == 0)     # whole-number data: may be handed in with an integer dtype
+        filt = dyadic(rng, -2, 2, 0 if whole else 5, size=fshape)
+        sig = dyadic(rng, -4, 4, 0 if whole else 5, size=sshape)
+        d_ = as_given(rng, dom, R, "domain", kinds=("same", "list", "strided")) if not np.isscalar(dom) else float(dom)
+        filt_g = as_given(rng, filt, R, "filters"); sig_g = as_given(rng, sig, R, "signals")
+        st, out = call(dreye.calculate_capture, filt_g, sig_g, domain=d_, trapz=trapz)
+        if st == "ok" and bool(rng.integers(3) == 0):
+            # history: the same arrays are used again (a call must not have changed them)
+            st2, out2 = call(dreye.calculate_capture, filt_g, sig_g, domain=d_, trapz=trapz)
+            if st2 != "ok" or not np.array_equal(np.asarray(out), np.asarray(out2)):
+                R.failB(dict(k=k, shape=str(shape), filters=filt, signals=sig, dom=dom, trapz=bool(trapz)),
+                        "a second identical call with the same arrays gave a different capture", "C01:%s:second-call-differs" % shape)
         c.update(filters=filt, signals=sig)
         dt = dom_text(dom, trapz)
         if shape in ("2x2", "bxb", "1bxb", "2xb"):
